@@ -37,21 +37,33 @@ type TableHeader struct {
 }
 
 func PointerField(psi []byte) uint8 {
+	if len(psi) == 0 {
+		return 0
+	}
 	return psi[0]
 }
 
 // TableID returns the psi table header table id
 func TableID(psi []byte) uint8 {
+	if len(psi) < 2+int(PointerField(psi)) {
+		return 0
+	}
 	return tableID(psi[1+PointerField(psi):])
 }
 
 // SectionSyntaxIndicator returns true if the psi contains section syntax
 func SectionSyntaxIndicator(psi []byte) bool {
+	if len(psi) < 3+int(PointerField(psi)) {
+		return false
+	}
 	return sectionSyntaxIndicator(psi[1+PointerField(psi):])
 }
 
 // PrivateIndicator returns true if the psi contains private data
 func PrivateIndicator(psi []byte) bool {
+	if len(psi) < 3+int(PointerField(psi)) {
+		return false
+	}
 	return psi[2+PointerField(psi)]&0x40 != 0
 }
 
@@ -59,6 +71,10 @@ func PrivateIndicator(psi []byte) bool {
 func SectionLength(psi []byte) uint16 {
 	offset := int(1 + PointerField(psi))
 	if offset >= len(psi) {
+		return 0
+	}
+	if len(psi) < 4+int(PointerField(psi)) {
+		// the 3 byte section header is not complete
 		return 0
 	}
 	return sectionLength(psi[offset:])
